@@ -784,13 +784,6 @@ theorem dkeys_dataSet (d : List (α × List α)) (x : α) (y : List α) :
   unfold dataSet
   by_cases hx : x ∈ dkeys d
   · rw [if_pos (dataGet_isSome.2 hx), if_pos hx]
-    simp only [dkeys, List.map_map]
-    apply List.map_congr_left
-    intro kv _
-    simp only [Function.comp]
-    split
-    · rename_i h; exact h.symm
-    · rfl
   · rw [if_neg (fun h => hx (dataGet_isSome.1 h)), if_neg hx]; simp [dkeys]
 
 theorem mem_dkeys_dataSet {d : List (α × List α)} {x z : α} {y : List α} :
